@@ -559,6 +559,13 @@ def register_core(M):
         o = ex.materialize(a[0], dty)
         return o.with_discr(1) if M.is_some(ex, o) else ex.call_value(a[1], [])
 
+    @reg('Result::unwrap_or')
+    def _(ex, info, a, dty):
+        r = ex.materialize(a[0])
+        if ex.branch(M.discr(ex, r) == bv(0)):
+            return ex.field_of(r, 0, 0, dty or '?')
+        return a[1]
+
     @reg('Option::unwrap_or')
     def _(ex, info, a, dty):
         o = ex.materialize(a[0])
@@ -925,6 +932,23 @@ def register_core(M):
     @reg('RefCell::new', 'Cell::new')
     def _(ex, info, a, dty):
         return Adt(dty or 'RefCell<?>', {(None, 0): a[0]})
+
+    @reg('RefCell::take', 'Cell::take')
+    def _(ex, info, a, dty):
+        cell, path = ex.deref(a[0])
+        inner_path = path + (('f', None, 0, '?'),)
+        v = ex.read_path(cell, inner_path)
+        g = generic_args(info.get('self_ty') or '') or [dty or '?']
+        ex.write_path(cell, inner_path, M.default_value(ex, dty or g[0]))
+        return v
+
+    @reg('RefCell::replace', 'Cell::replace', 'Cell::set')
+    def _(ex, info, a, dty):
+        cell, path = ex.deref(a[0])
+        inner_path = path + (('f', None, 0, '?'),)
+        v = ex.read_path(cell, inner_path)
+        ex.write_path(cell, inner_path, a[1])
+        return UNIT if info['method'] == 'set' else v
 
     @reg('RefCell::borrow', 'RefCell::borrow_mut')
     def _(ex, info, a, dty):
